@@ -29,6 +29,10 @@ class Draws:
         return x
 
 
+ASSUMPTIONS.append('"bytes held" in the byte-limit oracle is an account kept at the port\'s boundary (sizes accepted by `put` minus sizes handed to `out`), '
+                   'not the port\'s own `byte_size`; a refusal is what `packets_dropped` counts')
+
+
 class Ledger:
     """an account kept at the port's boundary, independent of the port's own figures: bytes of the packets it accepted and
     has not yet handed to `out` (waiting plus in transmission), noted before every put together with the decision"""
